@@ -22,6 +22,7 @@ import (
 	"strings"
 	"sync"
 	"time"
+	"unsafe"
 
 	"github.com/containerd/stargz-snapshotter/cache"
 	"github.com/containerd/stargz-snapshotter/estargz"
@@ -551,6 +552,17 @@ func execServe(st Store, c Case, tmpRoot string) (obs serveObs) {
 	gr := vr.SkipVerify()
 
 	obs.view = walk(mr, &obs.problems)
+	// The attributes are kept by the node layer for the life of a node: none of their bytes may live in a file
+	// mapping of the store (bbolt values are only valid during the transaction; the mapping moves when the file grows).
+	for _, n := range obs.view {
+		for k, v := range n.Attr.Xattrs {
+			if len(v) > 0 {
+				if f := fileMappingOf(uintptr(unsafe.Pointer(&v[0]))); f != "" {
+					obs.problems = append(obs.problems, fmt.Sprintf("xattr value %q of %q returned by the metadata store points into the memory-mapped file %s (valid only during the store's transaction)", k, n.Path, filepath.Base(f)))
+				}
+			}
+		}
+	}
 
 	// regular files: one per node id, named by the TOC entry that owns the node
 	if toc == nil {
@@ -1274,4 +1286,25 @@ func lateDirs(toc []estargz.VerifTOCEntryC02) map[string]int {
 		}
 	}
 	return out
+}
+
+// fileMappingOf returns the path of the file whose mapping contains the address, "" for anonymous memory (Go heap).
+func fileMappingOf(addr uintptr) string {
+	b, err := os.ReadFile("/proc/self/maps")
+	if err != nil {
+		return ""
+	}
+	for _, line := range strings.Split(string(b), "\n") {
+		var lo, hi uintptr
+		var perms, off, dev, path string
+		var inode uint64
+		n, _ := fmt.Sscanf(line, "%x-%x %s %s %s %d %s", &lo, &hi, &perms, &off, &dev, &inode, &path)
+		if n >= 6 && addr >= lo && addr < hi {
+			if n == 7 && strings.HasPrefix(path, "/") {
+				return path
+			}
+			return ""
+		}
+	}
+	return ""
 }
